@@ -65,8 +65,28 @@ def variant_cases(p):
                 yield ("var", p, i, u, v)
 
 
+def cycle_dfa_cases(n, partial=False):
+    """Complete DFAs on states 0..n-1: symbol a is the cycle i -> i+1 mod n, symbol b any function (with partial=True
+    b may also be undefined), any set of final states, start state 0.  Large enough for Hopcroft's worklist to
+    split a class that is still pending."""
+    from itertools import product
+    rng = range(-1, n) if partial else range(n)
+    for f in product(rng, repeat=n):
+        for fi in range(1 << n):
+            yield ("dfa", n, list(f), fi)
+
+
+def dfa_case(case):
+    _, n, f, fi = case
+    trans = [(i, 1, (i + 1) % n) for i in range(n)] + [(i, 2, f[i]) for i in range(n) if f[i] >= 0]
+    return (n, 2, tuple(sorted(trans)), 1, fi)
+
+
 def resolve(case):
     """-> (caseA, symvalsA, caseB, symvalsB)"""
+    if case[0] == "dfa":
+        c = dfa_case(case)
+        return c, None, c, None
     if case[0] == "pair":
         _, pa, i, pb, j, symsb, symsa = case
         return pool(pa)[i], list(symsa), pool(pb)[j], list(symsb)
@@ -157,7 +177,11 @@ class C02(Prop):
                     Layer("pairs P21xP1", lambda: pair_cases("P21", "P1")),
                     Layer("pairs P2xP2 mixed-type symbols", lambda: pair_cases("P2", "P2", (1, "x"), (1, "x")),
                           policies=["natural@int", "1@int"]),
-                    Layer("variants P2", lambda: variant_cases("P2"))]
+                    Layer("variants P2", lambda: variant_cases("P2")),
+                    Layer("minimize: cycle DFAs n=4", lambda: cycle_dfa_cases(4), policies=["natural@int", "1@str", "2@int"]),
+                    Layer("minimize: cycle DFAs n=5 (partial b, every 7th)",
+                          lambda: (c for k, c in enumerate(cycle_dfa_cases(5, True)) if k % 7 == 0),
+                          policies=["natural@int", "1@str"])]
         few = ["natural@int", "natural@str", "1@int", "2@str", "s%d@int" % seed]
         return [Layer("pairs P2xP2", lambda: pair_cases("P2", "P2"), policies=few),
                 Layer("pairs P2xP1{b,c}", lambda: pair_cases("P2", "P1", ("b", "c")), policies=few),
@@ -166,7 +190,10 @@ class C02(Prop):
                 Layer("pairs P2xP2 mixed-type symbols", lambda: pair_cases("P2", "P2", (1, "x"), (1, "x")),
                       policies=["natural@int", "1@int"]),
                 Layer("variants P2", lambda: variant_cases("P2")),
-                Layer("variants P3s", lambda: variant_cases("P3s"), policies=few)]
+                Layer("variants P3s", lambda: variant_cases("P3s"), policies=few),
+                Layer("minimize: cycle DFAs n=4 (partial b)", lambda: cycle_dfa_cases(4, True), policies=few),
+                Layer("minimize: cycle DFAs n=5", lambda: cycle_dfa_cases(5), policies=few[:3]),
+                Layer("minimize: cycle DFAs n=5 (partial b)", lambda: cycle_dfa_cases(5, True), policies=few[:2])]
 
     def default_policies(self, tier, seed):
         if tier == "quick":
@@ -205,6 +232,8 @@ class C02(Prop):
         cla = ["enfa"] + ([ka] if ka != "enfa" else [])
         clb = ["enfa"] + ([kb] if kb != "enfa" else [])
         mins = {}
+        if case[0] == "dfa":
+            cla, clb = ["dfa"], ["enfa"]
         for x in cla:
             for y in clb:
                 tag = x + "~" + y
@@ -221,7 +250,7 @@ class C02(Prop):
                 if ctx.returns(r, "C02.eq", classes=tag):
                     ctx.expect(r.value is ref["equal"], "C02.eq", classes=tag, got=r.value, want=ref["equal"],
                                witness=ref["witness"])
-                if case[0] == "var" or (case[0] == "pair" and case[2] == case[4]):
+                if case[0] in ("var", "dfa") or (case[0] == "pair" and case[2] == case[4]):
                     for side, obj, c, sv in (("A", a, ca, sa), ("B", b, cb, sb)):
                         key = (side, x if side == "A" else y)
                         if key in mins:
